@@ -35,6 +35,9 @@ for d in sorted(glob.glob("/tmp/out-C*/[1-9]*")):
     dst = "/verif/seeded/" + name
     os.makedirs(dst, exist_ok=True)
     shutil.copy(d + "/patch.diff", dst + "/patch.diff")
+    rebased = os.path.exists(d + "/patch.orig.diff")
+    if rebased:
+        shutil.copy(d + "/patch.orig.diff", dst + "/patch.orig.diff")
     if os.path.isdir(dst + "/demo"):
         shutil.rmtree(dst + "/demo")
     if os.path.isdir(d + "/demo"):
@@ -50,6 +53,7 @@ for d in sorted(glob.glob("/tmp/out-C*/[1-9]*")):
         "property": prop, "name": name, "title": title, "files_changed": files,
         "round": {"1":1,"2":1,"3":1,"4":2,"5":2,"6":2,"7":3,"8":3,"9":4,"10":4}.get(n, 0),
         "needs_to_manifest": needs(notes),
+        "rebased": ("patch.diff is the seeder's change re-applied by hand onto /repo's current HEAD after later fix: commits touched the same lines (patch.orig.diff is what the seeder delivered); demo re-confirmed on the rebased patch" if rebased else False),
         "confirmed": {"demo_passes_without_patch": conf.get("demo_without_patch_rc") == 0,
                       "demo_fails_with_patch": conf.get("demo_with_patch_rc", 0) != 0,
                       "build_and_suite_pass_with_patch": conf.get("suite_with_patch_rc") == 0,
